@@ -54,7 +54,7 @@ var c19Vals = []c19Val{
 	{"map2", `{"a": 1, "b": 2}`, `{"a": 1, "b": 3}`, `{"a": 1.0, "b": 2}`},
 	{"map7", `{"a": 1, "b": 2, "c": 3, "d": 4, "e": 5, "f": 6, "g": 7}`, `{"a": 9, "b": 2, "c": 3, "d": 4, "e": 5, "f": 6, "g": 7}`, `{"a": 1.0, "b": 2, "c": 3, "d": 4, "e": 5, "f": 6, "g": 7}`},
 	{"func", "x => x + 1", "x => x + 2", ""},
-	{"zero", "0", "1", "0.0"}, // the first value of for X = 3 {}: the first Set is legal, the others are not
+	{"zero", "0", "1", "0.0"},                                                 // the first value of for X = 3 {}: the first Set is legal, the others are not
 	{"inloopkey", "for i = 3 {if i == 0 {X = {i: \"a\"}}}", "{1: \"a\"}", ""}, // bound inside a loop to a literal holding the loop variable
 	{"inloopval", "for i = 1:4 {if i == 1 {X = [i, [i], {\"k\": i}]}}", "[2, [2], {\"k\": 2}]", ""},
 	{"poszero", "0.0", "1.5", "(-0.0)"},                                                           // -0.0 == 0.0 but 1/X tells them apart
